@@ -517,7 +517,46 @@ func c19concBody() {
 	sched.SetOutcome(fmt.Sprintf("free=%v report=%s left=%v", withFree, heats(hk), latched))
 }
 
+// C19 (S): one counter, a request writer and the collector's Latch at the same time: every access is either in
+// a latched result or still in the counter - none is lost, none is counted twice.
+func c19latchBody() {
+	c := NewCounter(3, nil)
+	var wg vsync.WaitGroup
+	wg.Add(2)
+	sched.GoNamed("writer", func() {
+		defer wg.Done()
+		c.Incr("a")
+		c.Incr("b")
+		c.Incr("a")
+		c.Incr("a")
+	})
+	got := map[string]uint64{}
+	sched.GoNamed("collector", func() {
+		defer wg.Done()
+		for i := 0; i < 2; i++ {
+			for k, v := range c.Latch() {
+				got[k] += v
+			}
+		}
+	})
+	wg.Wait()
+	for k, v := range c.Latch() {
+		got[k] += v
+	}
+	if got["a"] != 3 || got["b"] != 1 || len(got) != 2 {
+		sched.Fail("accesses-lost-or-counted-twice / Latch racing Incr", fmt.Sprintf("3 accesses of a and 1 of b; the latched results add up to a=%d b=%d (%d keys)", got["a"], got["b"], len(got)))
+	}
+	sched.SetOutcome("ok")
+}
+
 func init() {
+	sched.Register(&sched.Scenario{Name: "C19/latch-concurrent", Setup: func(tier string) (sched.Config, func()) {
+		b := sched.Bounds{P: 2, F: -1}
+		if tier == "thorough" {
+			b.P = 3
+		}
+		return sched.Config{Bounds: b, Iterative: true}, c19latchBody
+	}})
 	sched.Register(&sched.Scenario{Name: "C19/counter", Custom: c19counter, ReplayCustom: func(in json.RawMessage) []sched.Failure {
 		var cs ctrCase
 		json.Unmarshal(in, &cs)
